@@ -743,6 +743,8 @@ COMPAT_SCHEMAS = [
     Struct("J1", [F(0, "u8", nested="I1", opt=True), F(1, "u8")]), Struct("J2", [F(0, "u8", nested="I2", opt=True), F(1, "u8")], note="index_only enum in optional field; sibling after it"),
     Enum("U1", [Variant(0, "A"), Variant(1, "B")]),
     Enum("U2", [Variant(0, "A", [F(0, "u8", opt=True), F(1, "bool", opt=True)], "struct"), Variant(1, "B", [F(0, "u16", opt=True)], "tuple")], note="unit variants turned into struct / tuple variants with optional fields"),
+    Enum("UM1", [Variant(0, "A"), Variant(1, "B")], enc="map"),
+    Enum("UM2", [Variant(0, "A", [F(0, "u8", opt=True), F(2, "bool", opt=True)], "struct"), Variant(1, "B", [F(1, "u16", opt=True)], "tuple")], enc="map", note="map-encoded unit variants turned into struct / tuple variants"),
     Struct("T1", [F(0, "u8"), F(2, "u16")]), Struct("T2", [F(0, "u8"), F(1, "u8", opt=True, tag=9), F(2, "u16")], note="TAGGED optional added at a gap index"),
     Struct("X1", [F(0, "u8"), F(1, "u8", nested="Inner"), F(2, "bool"), F(3, "u8", bytes_=True)], note="writer has fields 1 (a struct) and 3 (bytes) unknown to the reader"),
     Struct("X0", [F(0, "u8"), F(2, "bool")]),
@@ -759,6 +761,7 @@ COMPAT_PAIRS = [
     ("H1", "H2", "enum-variants-added(old writer)"), ("H2", "H1", "enum-variants-added(new writer, unknown variant => None)"),
     ("J1", "J2", "index-only-variants-added(old writer)"), ("J2", "J1", "index-only-variants-added(new writer, unknown variant => None)"),
     ("U1", "U2", "unit-to-struct-variant(old writer)"), ("U2", "U1", "unit-to-struct-variant(new writer)"),
+    ("UM1", "UM2", "unit-to-struct-variant-map(old writer)"), ("UM2", "UM1", "unit-to-struct-variant-map(new writer)"),
     ("T1", "T2", "add-tagged-optional-gap-index"), ("T2", "T1", "drop-tagged-optional-gap-index"),
     ("X1", "X0", "unknown-fields-ignored"), ("MX1", "MX0", "unknown-map-keys-ignored"),
     ("N1", "N2", "missing-mandatory-is-error"),
